@@ -1268,9 +1268,10 @@ def load_corpus():
 
 
 def gen_files():
-    from translate import narrowpreds
+    from translate import narrowpreds, narrowsrc
 
-    return {"NarrowTable.v": narrowtable.translate(str(lib.REPO)), "NarrowPreds.v": narrowpreds.translate(str(lib.REPO))}
+    return {"NarrowTable.v": narrowtable.translate(str(lib.REPO)), "NarrowPreds.v": narrowpreds.translate(str(lib.REPO)),
+            "NarrowSrc.v": narrowsrc.translate(str(lib.REPO))}
 
 
 # ---------------------------------------------------------------------------
@@ -1579,10 +1580,12 @@ def run(tier: str, replay: str | None = None):
             mo = unpack(model[i][3][j])
             clauses = dict(zip(("promotion_negative", "subclass_bool", "multiple_inheritance", "enum_class_object", "sequence_pattern_str", "assert_promotion"), mo[3]))
             if kind == "lost":
-                impl_out = api[i][0 if pol else 1] if rname == "api" else e2e[i][0 if pol else 1]
-                mout = model_value(model[i][0 if pol else 1])
-                model_predicts = not (mo[2][0] if pol else mo[2][1])
-                same = impl_out == mout
+                # "the implementation behaves on it as the model predicts": the correspondence check of this
+                # very output (route, branch) passed — exact, narrow_e2e, or extensional, whichever applies —
+                # and the model's value for that route loses the object too
+                same = not any(ci == i and what.startswith(f"{rname}:{pol}") for (ci, what, _iv, _mv) in corr)
+                mval = model_value(model[i][4][0 if pol else 1]) if (rname == "e2e" and simple_boolop(cases[i][1])) else model_value(model[i][0 if pol else 1])
+                model_predicts = not py_member(pyobjs[j], tuple(mval))
             else:
                 model_predicts = True
                 same = boolab[i][0] == model[i][2]
@@ -1623,7 +1626,7 @@ def run(tier: str, replay: str | None = None):
         rep.violation(payload(i, {"kind": "broken-correspondence", "correspondence": f"Narrow.Model.narrow/boolab_of vs constrain_value/annotate_code/get_boolability [{what}]",
                                   "observed": iv, "model": mv, "mismatches": len(corr)}), no_failing_input=True)
     if broken_translation and not found_input:
-        rep.violation({"kind": "broken-obligation", "theorem": "Gen/NarrowTable.v / Gen/NarrowPreds.v (translators)", "detail": broken_translation}, no_failing_input=True)
+        rep.violation({"kind": "broken-obligation", "theorem": "Gen/NarrowTable.v / Gen/NarrowPreds.v / Gen/NarrowSrc.v (translators)", "detail": broken_translation}, no_failing_input=True)
     if proof is not None and not proof.ok and not found_input:
         rep.violation({"kind": "broken-obligation", "theorem": "; ".join(proof.broken), "log": proof.log[-1500:]}, no_failing_input=True)
     if spec_mismatch:
